@@ -1,5 +1,6 @@
 import TinodeVerif.Driver.C05
 import TinodeVerif.Driver.C04
+import TinodeVerif.Driver.C20
 /-!
 Line-protocol driver. Usage:
   driver model    < ops.txt        > model.out     one output line per op line
@@ -15,6 +16,7 @@ def modelLine (line : String) : String :=
     let r :=
       if w.startsWith "acs." then Driver.C05.model ws
       else if w.startsWith "rng." then Driver.C04.model ws
+      else if w.startsWith "uid." then Driver.C20.model ws
       else none
     match r with
     | some s => s
@@ -31,6 +33,7 @@ def verdictLine (line : String) : String :=
       let r :=
         if w.startsWith "acs." then Driver.C05.verdict ws os
         else if w.startsWith "rng." then Driver.C04.verdict ws os
+        else if w.startsWith "uid." then Driver.C20.verdict ws os
         else some true
       match r with
       | some true => "ok"
